@@ -526,9 +526,18 @@ namespace photon
         }
 
     public:
-        void foreground_lock() {
+        void foreground_lock(bool may_contend = true) {
             // lock
             foreground_locked.store(true, std::memory_order_release);
+
+            // The store above must be globally visible before background_locked
+            // is read: otherwise (store buffering, also on x86) a background
+            // locker that has just done its exchange still reads
+            // foreground_locked == false while we read background_locked ==
+            // false, and both enter. Only vCPUs that allow (passive) work
+            // stealing ever see a background locker.
+            if (may_contend)
+                std::atomic_thread_fence(std::memory_order_seq_cst);
 
             // wait if (unlikely) background locked
             wait_while(background_locked);
@@ -656,7 +665,8 @@ namespace photon
         mutable asymmetric_spinLock* plock;
         AtomicRunQ(const RunQ& runq = RunQ()) : RunQ(runq) {
             vcpu = current->get_vcpu();
-            (plock = &vcpu->runq_lock) -> foreground_lock();
+            (plock = &vcpu->runq_lock) -> foreground_lock(
+                vcpu->flags & VCPU_ENABLE_PASSIVE_WORK_STEALING);
         }
         mutable bool update_current = false;
         void set_current(thread* th) const {
